@@ -33,7 +33,7 @@ func (*c01World) ID() string   { return "C01" }
 func (*c01World) Name() string { return "c01" }
 func (*c01World) Runs(tier string) int {
 	if tier == "thorough" {
-		return 400000
+		return 1200000
 	}
 	return 12000
 }
